@@ -23,3 +23,18 @@ func HXssCtxTotal(n int, ctx int) {
 	ok := isXSS(s, ctx)
 	vObserveBool("verdict", ok)
 }
+
+// HSqlOpener (C01, T layer): a fixed opener followed by n free bytes, so that free bytes land behind every
+// multi-byte construct opener; context prefixes put the opener after a quote break-out.
+func HSqlOpener(which int, n int, pre int) {
+	op := [...]string{"q'(", "nq'[", "$ab$", "$$", "0x", "0b", "1e+", "1.", "/*", "/*!", "@@", "@`", "x'", "b'", "u&'", "n'", "e'", "--", "#", "[", "\\",
+		"1 union select ", "1' or '", "1;", "{", "`", "1 -- ", "1/*", "a.", "@a:=", "1 like (", "1 in (", "a(", "1,-", "select .", "::", "<=>", "&&", "1f", "$1,", "$."}[which]
+	p := [...]string{"", "1'", "1\"", "1 "}[pre]
+	s := p + op + vNondetString(n)
+	ok, fp := IsSQLi(s)
+	vObserveBool("verdict", ok)
+	vObserveStr("fp", fp)
+	vCover("done")
+}
+
+const vNumSqlOpeners = 41
